@@ -12,14 +12,20 @@
   processes that each re-read the event file: they share nothing); `n_jobs`
   enters only the submit-loop model (`simulate`: `burst = 4 · n_jobs`, and the
   completion order = the arbitrary oracle `delay`).  `simulate` / `closeTime` is
-  a closed form of the submit loop, not derived from a step semantics;
-  termination of the call is "finitely many jobs are submitted, each completes".
+  a closed form of the submit loop; `runLoop` is the STEP semantics of the same
+  loop (one state per pass through `while True`: clock, next job index, jobs
+  submitted with their completion ticks; `break` iff a closing callback ran
+  before this pass), and `submit_loop_step_semantics` proves that for every
+  oracle the step semantics ends within `tDone (n / per) + 2` passes in exactly
+  the closed form's state.  Termination of the call is "finitely many jobs are
+  submitted, each completes".
 -/
 import PyndlProofs.Chunking
 import PyndlProofs.Bytes
 import PyndlProofs.Laws
 import PyndlProofs.NdlSpec
 import PyndlProofs.Faults
+import PyndlProofs.SubmitLoop
 
 namespace Pyndl.C04
 open Pyndl List
@@ -128,6 +134,42 @@ theorem submit_loop_terminates (n per burst : Nat) (hp : 1 ≤ per) (delay : Nat
     r.1 ≤ H ∧ n / per + 1 ≤ r.2.1 ∧ r.2.1 ≤ H + 1 ∧ r.2.2 = n :=
   Pyndl.submit_loop_terminates n per burst hp delay
 
+/-- **the submit loop, pass by pass, ends for every completion oracle in the
+    closed form's state**: running the step semantics `runLoop` from the initial
+    state with `tDone (n / per) + 2` passes of fuel does not run out of fuel; the
+    final state has submitted exactly the jobs `0 … K-1` for
+    `K = (simulate …).2.1`, stands at tick `tSubmit K`, and the callbacks of the
+    submitted jobs add up to `n` — exact multiples of `events_per_file`, every
+    burst `≥ 1` (the proof does not even need `burst ≥ 1`) and every delay
+    function included. -/
+theorem submit_loop_step_semantics (n per burst : Nat) (hp : 1 ≤ per) (delay : Nat → Nat) :
+    let H := tDone delay burst (n / per)
+    let r := simulate n per burst delay H
+    ∃ s, runLoop n per burst delay (H + 2) loopInit = some s ∧
+      s.ii = r.2.1 ∧ s.now = tSubmit delay burst r.2.1 ∧
+      s.subs.map Prod.fst = (List.range r.2.1).reverse ∧
+      loopCount n per s = r.2.2 ∧ loopCount n per s = n :=
+  runLoop_refines_simulate n per burst hp delay
+
+/-- one pass of the loop: it breaks exactly when a submitted job whose result
+    closes the pool completed strictly before this pass — in the invariant
+    state of pass `k` (clock `tSubmit k`, jobs `0 … k-1` submitted) -/
+theorem submit_loop_break_iff (n per burst k : Nat) (delay : Nat → Nat) (s : LoopState)
+    (h : LoopInv delay burst k s) :
+    loopStep n per burst delay s = none ↔
+      ∃ j, j < k ∧ (jobResult n per j).closes = true ∧ tDone delay burst j < tSubmit delay burst k := by
+  rw [← poolClosed_iff n per burst k delay s h]
+  unfold loopStep
+  cases poolClosed n per s <;> simp
+
+/-- under the pinned tree's rule (F1) the step semantics never breaks when `per`
+    divides `n`: no submitted job ever closes the pool, so every pass submits
+    another job (the hang that was repaired) -/
+theorem submit_loop_old_rule_never_breaks (n per : Nat) (hp : 1 ≤ per) (hdiv : per ∣ n)
+    (subs : List (Nat × Nat)) (now : Nat) :
+    subs.any (fun p => (jobResultOld n per p.1).closes && decide (p.2 < now)) = false := by
+  simp [old_rule_never_closes n per hp hdiv]
+
 /-- the pinned tree's rule (F1, repaired): if `per` divides `n` no job result
     ever closes the pool — the submit loop is unbounded. Witness replayed on the
     real code: 4 events, `events_per_temporary_file = 2`. -/
@@ -154,6 +196,13 @@ nothing and closes; every oracle ends with count 4. 23 events, 2 per file: 12
 chunk files whose names sort numerically. -/
 example : (jobResult 4 2 0, jobResult 4 2 1, jobResult 4 2 2) = (⟨2, false⟩, ⟨2, false⟩, ⟨0, true⟩) := by decide
 example : (simulate 4 2 8 (fun j => if j = 2 then 7 else 0) 9).2.2 = 4 := by decide +kernel
+/-- non-vacuity of `submit_loop_step_semantics`: the F1 witness (4 events, 2 per
+    file, burst 8) with every closing job (2, 3, …) taking 7 ticks: the first burst
+    of 8 jobs is submitted, the thread waits for job 7 (done at tick 14) and then
+    finds the pool closed by job 2 (done at tick 9): 8 jobs submitted, count 4,
+    the closed form agrees. -/
+example : (runLoop 4 2 8 (fun j => if j ≥ 2 then 7 else 0) 11 loopInit).map (fun s => (s.ii, s.now, loopCount 4 2 s))
+    = some (8, 14, 4) ∧ simulate 4 2 8 (fun j => if j ≥ 2 then 7 else 0) 9 = (9, 8, 4) := by decide +kernel
 example : chunkKey (chunkName 10) = 10 ∧ chunkName 10 = "events_0_10.dat".toList := by decide +kernel
 
 /-- non-vacuity of `conversion_files` / `writeEvents_window`: 5 events, 2 per
